@@ -2,6 +2,12 @@
    input  (EV ...)
      EV = (sissue) | (sissuecut) | (sreply nCALL sCLS) | (swrongseq) | (sbad) | (slost) | (sclose)
         | (sarm scaller|scallerw|sreply) | (sdisarm scaller|scallerw|sreply)
+        | (sother) | (spool sfull|sfree)
+     sother = a well-formed frame whose message type is none of CALL/REPLY/PUSH: a context like that
+          of an unbound reply, and - if the read loop hands it on - its handler calls Close()
+          from a goroutine of its own
+     spool  = the goroutine pool has no free slot / has free slots again (Go() fails: the read
+          loop handles the frame itself)
           (callerw = gate write.done: a caller parks after its socket write, still holding the call's mutex)
         CLS = ok | remote | undec | undec0 | hook | panic
      sbad  = malformed bytes on the stream (read error at that point of the stream)
@@ -12,10 +18,13 @@ From Coq Require Import List Arith NArith ZArith Bool Lia.
 From Verif Require Import Base.Bytes Base.Val Model.Lifecycle Model.CallLife Model.Graceful.
 Import ListNotations.
 
-Record rs := mkRs0 { r_s : sess; r_q : list frame; r_armC : bool; r_armR : bool; r_armW : bool }.
-(* r_armW: gate write.done armed - a caller parks after its socket write, before AsyncCall returns *)
-Definition mkRsr (r0 : rs) (s : sess) (q : list frame) (c a : bool) : rs := mkRs0 s q c a (r_armW r0).
-Definition with_w (r : rs) (w : bool) : rs := mkRs0 (r_s r) (r_q r) (r_armC r) (r_armR r) w.
+Record rs := mkRs0 { r_s : sess; r_q : list (frame * bool); r_armC : bool; r_armR : bool; r_armW : bool; r_full : bool }.
+(* r_q: the frames on the stream; the flag marks a frame whose handler calls Close()
+   r_armW: gate write.done armed - a caller parks after its socket write, before AsyncCall returns
+   r_full: the goroutine pool is used up *)
+Definition mkRsr (r0 : rs) (s : sess) (q : list (frame * bool)) (c a : bool) : rs := mkRs0 s q c a (r_armW r0) (r_full r0).
+Definition with_w (r : rs) (w : bool) : rs := mkRs0 (r_s r) (r_q r) (r_armC r) (r_armR r) w (r_full r).
+Definition with_full (r : rs) (b : bool) : rs := mkRs0 (r_s r) (r_q r) (r_armC r) (r_armR r) (r_armW r) b.
 
 Fixpoint first_some {A} (f : nat -> option A) (n : nat) : option A :=
   match n with
@@ -74,15 +83,21 @@ Definition one_move (r : rs) : option rs :=
   match first_some (visit_step s) n with
   | Some s' => Some (upd_s s')
   | None =>
-  match fst_opt (reader_step fixed s true) with
+  match fst_opt (reader_step fixed s (negb (r_full r))) with
   | Some s' => Some (upd_s s')
   | None =>
       match rd s with
       | R2 =>
           if negb (sock s) then option_map upd_s (frame_step s FrErr)
           else match r_q r with
-               | f :: q => match frame_step s f with
-                           | Some s' => Some (mkRsr r s' q (r_armC r) (r_armR r))
+               | (f, closes) :: q =>
+                           match frame_step s f with
+                           | Some s' =>
+                               (* the handler's Close(): only a frame the loop hands on is handled *)
+                               let s'' := if closes && goon (st s')
+                                          then match close_call s' with Some x => x | None => s' end
+                                          else s' in
+                               Some (mkRsr r s'' q (r_armC r) (r_armR r))
                            | None => None
                            end
                | [] => None
@@ -102,7 +117,7 @@ Definition fdec_of (v : val) : option fdec :=
   else if sym_eqb v "undec" then Some FErrC else if sym_eqb v "undec0" then Some FErr0
   else if sym_eqb v "hook" then Some FHook else if sym_eqb v "panic" then Some FPanic else None.
 
-Definition enq (r : rs) (f : frame) : rs := mkRsr r (r_s r) (r_q r ++ [f]) (r_armC r) (r_armR r).
+Definition enq (r : rs) (f : frame) : rs := mkRsr r (r_s r) (r_q r ++ [(f, false)]) (r_armC r) (r_armR r).
 
 Definition do_ev (r : rs) (ev : val) : option rs :=
   match ev with
@@ -123,7 +138,7 @@ Definition do_ev (r : rs) (ev : val) : option rs :=
                 | Some c =>
                     match c_a c with
                     | A2w => match caller_step s2 i false WOther with
-                             | Some s3 => Some (mkRsr r (set_conn s3 false) (r_q r ++ [FrErr]) (r_armC r) (r_armR r))
+                             | Some s3 => Some (mkRsr r (set_conn s3 false) (r_q r ++ [(FrErr, false)]) (r_armC r) (r_armR r))
                              | None => None
                              end
                     | _ => Some (mkRsr r s2 (r_q r) (r_armC r) (r_armR r))
@@ -136,8 +151,10 @@ Definition do_ev (r : rs) (ev : val) : option rs :=
         end
       else if bytes_eqb k (str "wrongseq") then Some (enq r (FrReply 1000 FOk))
       else if bytes_eqb k (str "bad") then Some (enq r FrErr)
+      else if bytes_eqb k (str "other") then
+        Some (mkRsr r (r_s r) (r_q r ++ [(FrReply 1000 FOk, true)]) (r_armC r) (r_armR r))
       else if bytes_eqb k (str "lost") then
-        Some (mkRsr r (set_conn (r_s r) false) (r_q r ++ [FrErr]) (r_armC r) (r_armR r))
+        Some (mkRsr r (set_conn (r_s r) false) (r_q r ++ [(FrErr, false)]) (r_armC r) (r_armR r))
       else if bytes_eqb k (str "close") then
         match close_call (r_s r) with
         | Some s' => Some (mkRsr r s' (r_q r) (r_armC r) (r_armR r))
@@ -157,6 +174,7 @@ Definition do_ev (r : rs) (ev : val) : option rs :=
         if sym_eqb w "caller" then Some (mkRsr r (r_s r) (r_q r) false (r_armR r))
         else if sym_eqb w "callerw" then Some (with_w r false)
         else Some (mkRsr r (r_s r) (r_q r) (r_armC r) false)
+      else if bytes_eqb k (str "pool") then Some (with_full r (sym_eqb w "full"))
       else None
   | _ => None
   end.
@@ -216,7 +234,7 @@ Definition live0 : sess := mkSess Ok true true 0 0 0 0 [] [] R2 CIdle 0%N true 0
 
 Definition run (inp : val) : option val :=
   match inp with
-  | VL evs => option_map VL (run_evs 3000 (mkRs0 live0 [] false false false) false evs)
+  | VL evs => option_map VL (run_evs 3000 (mkRs0 live0 [] false false false false) false evs)
   | _ => None
   end.
 
